@@ -233,7 +233,7 @@ func (m *Manager) CreateAllocation( // nolint: cyclop
 	m.log.Debugf("Listening on relay address: %s", alloc.RelayAddr)
 
 	alloc.lifetimeTimer = time.AfterFunc(lifetime, func() {
-		m.DeleteAllocation(alloc.fiveTuple)
+		m.deleteAllocationOf(alloc)
 	})
 
 	m.lock.Lock()
@@ -279,6 +279,34 @@ func (m *Manager) DeleteAllocation(fiveTuple *FiveTuple) {
 	if m.EventHandler.OnAllocationDeleted != nil {
 		m.EventHandler.OnAllocationDeleted(fiveTuple.SrcAddr, fiveTuple.DstAddr,
 			fiveTuple.Protocol.String(), allocation.userID, allocation.realm)
+	}
+}
+
+// deleteAllocationOf removes alloc on behalf of its own goroutines (relay read
+// or accept loop, lifetime timer). They may run late: when the five-tuple has
+// meanwhile been deleted and given to a new allocation, that successor is not
+// theirs to delete.
+func (m *Manager) deleteAllocationOf(alloc *Allocation) {
+	fingerprint := alloc.fiveTuple.Fingerprint()
+
+	m.lock.Lock()
+	if m.allocations[fingerprint] != alloc {
+		m.lock.Unlock()
+
+		return
+	}
+	delete(m.allocations, fingerprint)
+	m.lock.Unlock()
+
+	m.lock.Lock()
+	if err := alloc.Close(); err != nil {
+		m.log.Errorf("Failed to close allocation: %v", err)
+	}
+	m.lock.Unlock()
+
+	if m.EventHandler.OnAllocationDeleted != nil {
+		m.EventHandler.OnAllocationDeleted(alloc.fiveTuple.SrcAddr, alloc.fiveTuple.DstAddr,
+			alloc.fiveTuple.Protocol.String(), alloc.userID, alloc.realm)
 	}
 }
 
